@@ -13,11 +13,8 @@ import sys, os, json, hashlib, glob, subprocess, time
 ROOT = os.path.dirname(os.path.dirname(os.path.abspath(__file__)))
 REPO = os.environ.get("VERIF_REPO", "/repo")
 
-def sha(p):
-    try:
-        return hashlib.sha256(open(p, "rb").read()).hexdigest()
-    except OSError:
-        return "missing"
+sys.path.insert(0, os.path.dirname(os.path.abspath(__file__)))
+from fphash import file_sha as sha  # hook items (cfg(odf_rust_dsymbols_verif)) are not part of the hash
 
 files = set()
 for line in open(os.path.join(ROOT, "properties.jsonl")):
